@@ -8,18 +8,18 @@ set -u
 cd $WT || exit 2
 if [ -z "${RECHECK:-}" ]; then
 git diff -- zepid > change.diff
-echo "== demo WITH change";  PYTHONPATH=$WT timeout 300 /venv/bin/python demo.py > /tmp/demo_with.log 2>&1; echo "exit=$?"; tail -2 /tmp/demo_with.log | cut -c1-300
-git stash -q -- zepid
-echo "== demo WITHOUT change"; PYTHONPATH=$WT timeout 300 /venv/bin/python demo.py > /tmp/demo_without.log 2>&1; echo "exit=$?"; tail -1 /tmp/demo_without.log | cut -c1-200
-git stash pop -q
+echo "== demo WITH change";  PYTHONPATH=$WT timeout 300 /venv/bin/python demo.py > $WT/.try_demo_with.log 2>&1; echo "exit=$?"; tail -2 $WT/.try_demo_with.log | cut -c1-300
+git checkout -q -- zepid
+echo "== demo WITHOUT change"; PYTHONPATH=$WT timeout 300 /venv/bin/python demo.py > $WT/.try_demo_without.log 2>&1; echo "exit=$?"; tail -1 $WT/.try_demo_without.log | cut -c1-200
+git apply change.diff
 echo "== baseline tests with change"
-PYTHONPATH=$WT timeout 1200 /venv/bin/python -m pytest -q -p no:cacheprovider --timeout=900 -rA tests/ 2>/dev/null > /tmp/pytest_mut.log
-tail -1 /tmp/pytest_mut.log
+PYTHONPATH=$WT timeout 1200 /venv/bin/python -m pytest -q -p no:cacheprovider --timeout=900 -rA tests/ 2>/dev/null > $WT/.try_pytest.log
+tail -1 $WT/.try_pytest.log
 python3 - <<PY
 import json,re
 base=set(json.load(open('/root/.vp/BASELINE.json'))['stable_pass'])
 passed=set()
-for l in open('/tmp/pytest_mut.log'):
+for l in open('$WT/.try_pytest.log'):
     m=re.match(r'PASSED (\S+)',l)
     if m:
         parts=m.group(1).split('::')
